@@ -244,6 +244,39 @@ Proof.
     rewrite (IH _ lo hi k false Hle) by (try exact Hk; apply inside_true; lia). f_equal. lia.
 Qed.
 
+(* ... without the assumption on `token_before`: the `else` proposals may come first *)
+Theorem st_spec_nest_any s g s' : snest s g s' ->
+  forall a lo hi k pi, lo <= hi -> inside (a + g) (len (fl_stmt s')) lo hi = true ->
+  st_spec s a lo hi k pi = AElse \/ exists pi', st_spec s a lo hi k pi = st_spec s' (a + g) lo hi k pi'.
+Proof.
+  induction 1 as [s | c1 b1 s b2 c2 g s' Hn IH | c1 c2 e c3 t g s' Hn IH | c1 c2 e c3 t c4 s g s' Hn IH
+                 | c1 c2 e c3 t c4 s g s' Hn IH | c1 c2 e c3 b g s' Hn IH];
+    intros a lo hi k pi Hle Hin; pose proof (inside_inv _ _ _ _ Hin) as [I1 I2].
+  - right. exists pi. now rewrite Nat.add_0_r.
+  - pose proof (snest_bounds _ _ _ Hn) as Hb. rewrite st_spec_blk. unfold else_or.
+    destruct (pi && is_rcurly k); [now left|].
+    destruct (sts_spec_hit b1 s b2 (a + len c1 + 1) lo hi k false) as [pi' ->]; [apply inside_true; lia | exact Hle|].
+    destruct (IH (a + len c1 + 1 + len (fl_stmts b1)) lo hi k pi' Hle ltac:(apply inside_true; lia)) as [E | [pi2 E]]; [now left|].
+    right. exists pi2. rewrite E. f_equal. lia.
+  - pose proof (snest_bounds _ _ _ Hn) as Hb. rewrite st_spec_ift. unfold else_or.
+    destruct (pi && is_rcurly k); [now left|]. cbv zeta. rewrite inside_true by lia.
+    destruct (IH (a + len c1 + 1 + len c2 + 1 + len (fl_cmp e) + len c3 + 1) lo hi k false Hle ltac:(apply inside_true; lia)) as [E | [pi2 E]]; [now left|].
+    right. exists pi2. rewrite E. f_equal. lia.
+  - pose proof (snest_bounds _ _ _ Hn) as Hb. rewrite st_spec_ife. unfold else_or.
+    destruct (pi && is_rcurly k); [now left|]. cbv zeta. rewrite inside_true by lia.
+    destruct (IH (a + len c1 + 1 + len c2 + 1 + len (fl_cmp e) + len c3 + 1) lo hi k false Hle ltac:(apply inside_true; lia)) as [E | [pi2 E]]; [now left|].
+    right. exists pi2. rewrite E. f_equal. lia.
+  - pose proof (snest_bounds _ _ _ Hn) as Hb. rewrite st_spec_ife. unfold else_or.
+    destruct (pi && is_rcurly k); [now left|]. cbv zeta. rewrite inside_hi by lia. rewrite inside_true by lia.
+    destruct (IH (a + len c1 + 1 + len c2 + 1 + len (fl_cmp e) + len c3 + 1 + len (fl_stmt t) + len c4 + 1) lo hi k false Hle
+                ltac:(apply inside_true; lia)) as [E | [pi2 E]]; [now left|].
+    right. exists pi2. rewrite E. f_equal. lia.
+  - pose proof (snest_bounds _ _ _ Hn) as Hb. rewrite st_spec_whl. unfold else_or.
+    destruct (pi && is_rcurly k); [now left|]. cbv zeta. rewrite inside_true by lia.
+    destruct (IH (a + len c1 + 1 + len c2 + 1 + len (fl_cmp e) + len c3 + 1) lo hi k false Hle ltac:(apply inside_true; lia)) as [E | [pi2 E]]; [now left|].
+    right. exists pi2. rewrite E. f_equal. lia.
+Qed.
+
 (* ---------------------------------------------------------------------------------------- *)
 (* the `in_statements` test                                                                   *)
 
@@ -307,6 +340,23 @@ Proof.
   destruct (sts_spec_hit b1 s b2 (D + len (proc_head c1 c2 x c3 ps c4 c5) + len (flat_map fl_vardecl vs)) lo hi k false)
     as [pi' ->]; [apply inside_true; lia | exact Hle|].
   now apply st_spec_nest.
+Qed.
+
+Theorem proc_spec_nested_any D c1 c2 x c3 ps c4 c5 vs b1 s b2 c6 g s' lo hi k :
+  snest s g s' ->
+  let A := D + len (proc_head c1 c2 x c3 ps c4 c5) + len (flat_map fl_vardecl vs) + len (fl_stmts b1) + g in
+  has_real b1 = true \/ is_emp s = false ->
+  lo <= hi -> inside A (len (fl_stmt s')) lo hi = true ->
+  proc_spec D (DProc c1 c2 x c3 ps c4 c5 vs (sapp b1 (SCons s b2)) c6) lo hi k = AElse \/
+  exists pi', proc_spec D (DProc c1 c2 x c3 ps c4 c5 vs (sapp b1 (SCons s b2)) c6) lo hi k = st_spec s' A lo hi k pi'.
+Proof.
+  intros Hn A Hreal Hle Hin. pose proof (inside_inv _ _ _ _ Hin) as [I1 I2].
+  pose proof (snest_bounds _ _ _ Hn) as Hb. pose proof (head_after_sig c1 c2 x c3 ps c4 c5) as Hh. unfold A in *.
+  rewrite proc_spec_body by lia. cbv zeta.
+  rewrite in_stmts_at_stmt by (try exact Hreal; lia).
+  destruct (sts_spec_hit b1 s b2 (D + len (proc_head c1 c2 x c3 ps c4 c5) + len (flat_map fl_vardecl vs)) lo hi k false)
+    as [pi' ->]; [apply inside_true; lia | exact Hle|].
+  now apply st_spec_nest_any.
 Qed.
 
 (* kinds that are no `}` *)
